@@ -68,6 +68,20 @@ impl Property for C08 {
             2 => 2 * msgs.largest,
             _ => msgs.largest + model::align(ty),
         };
+        let capacity = if t.chance(1, 3) {
+            let a = model::align(ty);
+            Some(model::round_up(msgs.largest + t.below(msgs.largest + 2 * a + 1), a).max(model::min_size(ty)))
+        } else {
+            None
+        };
+        struct CapGuard;
+        impl Drop for CapGuard {
+            fn drop(&mut self) {
+                crate::io_glue::IO_CAPACITY.with(|c| c.set(None));
+            }
+        }
+        let _cap_guard = CapGuard;
+        crate::io_glue::IO_CAPACITY.with(|c| c.set(capacity));
         let total = msgs.total();
         let cuts = msgs.interesting_cuts(ty);
         let wchunks = gen_chunks(total, &cuts, &mut t);
@@ -80,11 +94,12 @@ impl Property for C08 {
         let pendings = wscript.iter().filter(|w| **w == WOut::Pending).count() + rscript.iter().filter(|r| **r == ROut::Pending).count() + fscript.len();
         let ctx = |extra: String| {
             format!(
-                "[messages {:?} (post-ops on the send guard: {:?}), starts {:?}, max_msg_len {}, write script {:?}, read script {:?}, flush script {:?}{}]",
+                "[messages {:?} (post-ops on the send guard: {:?}), starts {:?}, max_msg_len {}, explicit buffer capacity {:?}, write script {:?}, read script {:?}, flush script {:?}{}]",
                 msgs.values.iter().map(|v| v.show()).collect::<Vec<_>>(),
                 msgs.post_ops,
                 msgs.starts,
                 max_msg_len,
+                capacity,
                 wscript,
                 rscript,
                 fscript,
